@@ -21,6 +21,7 @@ ASSUMPTIONS = [
     "error kinds/messages are not compared",
 ]
 TRIVIAL_TAGS = []
+STALL = 180.0      # no case takes more than milliseconds; a busy machine must not look like a hang
 
 KINDS = ["u8", "u64", "f64", "string", "bool"]
 DOMAIN = {
